@@ -1,6 +1,6 @@
 /-
   PINS of property C04: the decision tokens of every item the property is anchored in
-  (properties.jsonl `anchors` + tools/anchor_extra.json), as they were in /repo at b30ed81 when the
+  (properties.jsonl `anchors` + tools/anchor_extra.json), as they were in /repo at 32de816 when the
   model was validated against the source.  Written by tools/pin_anchors.py; the right-hand sides are
   compared by the kernel with lean/Chrono/Extracted/Anchors.lean, which tools/extractors/anchors.py
   regenerates from /repo's working tree on every check.  A theorem that fails here means: anchored
@@ -26,6 +26,18 @@ theorem src_datetime_mod_rs_fn_checked_sub_days : C04_src_datetime_mod_rs_fn_che
 theorem src_datetime_mod_rs_fn_checked_sub_months : C04_src_datetime_mod_rs_fn_checked_sub_months =
     ["self", "v1", "Months", "->", "Option", "<", "DateTime", "<", "Tz", ">>", "self", "overflowing_naive_local(", "checked_sub_months(", "v1", "?", "and_local_timezone(", "Tz", "from_offset(", "&", "self", "v2", "single("] := by decide +kernel
 
+/-- src/datetime/mod.rs:fn fixed_offset -/
+theorem src_datetime_mod_rs_fn_fixed_offset : C04_src_datetime_mod_rs_fn_fixed_offset =
+    ["&", "self", "->", "DateTime", "<", "FixedOffset", ">", "self", "with_timezone(", "&", "self", "offset(", "fix("] := by decide +kernel
+
+/-- src/datetime/mod.rs:fn format -/
+theorem src_datetime_mod_rs_fn_format : C04_src_datetime_mod_rs_fn_format =
+    ["<", ">", "&", "self", "v1", "&", "str", "->", "DelayedFormat", "<", "StrftimeItems", "<", ">>", "self", "format_with_items(", "StrftimeItems", "new(", "v1"] := by decide +kernel
+
+/-- src/datetime/mod.rs:fn format_with_items -/
+theorem src_datetime_mod_rs_fn_format_with_items : C04_src_datetime_mod_rs_fn_format_with_items =
+    ["<", "I", "B", ">", "&", "self", "v1", "I", "->", "DelayedFormat", "<", "I", ">", "I", "Iterator", "<", "Item", "B", ">", "+", "Clone", "B", "Borrow", "<", "Item", "<", ">>", "v2", "self", "overflowing_naive_local(", "DelayedFormat", "new_with_offset(", "Some(", "v2", "date(", "Some(", "v2", "time(", "&", "self", "v3", "v1"] := by decide +kernel
+
 /-- src/datetime/mod.rs:fn map_local -/
 theorem src_datetime_mod_rs_fn_map_local : C04_src_datetime_mod_rs_fn_map_local =
     ["<", "Tz", "TimeZone", "F", ">", "v1", "&", "DateTime", "<", "Tz", ">", "v2", "F", "->", "Option", "<", "DateTime", "<", "Tz", ">>", "F", "FnMut(", "NaiveDateTime", "->", "Option", "<", "NaiveDateTime", ">", "f(", "v1", "overflowing_naive_local(", "and_then(", "|", "v3", "|", "v1", "timezone(", "from_local_datetime(", "&", "v3", "single(", "filter(", "|", "v1", "|", "v1", ">=", "&", "DateTime", "<", "Utc", ">", "MIN_UTC", "&&", "v1", "<=", "&", "DateTime", "<", "Utc", ">", "MAX_UTC"] := by decide +kernel
@@ -34,17 +46,49 @@ theorem src_datetime_mod_rs_fn_map_local : C04_src_datetime_mod_rs_fn_map_local 
 theorem src_datetime_mod_rs_fn_naive_local : C04_src_datetime_mod_rs_fn_naive_local =
     ["&", "self", "->", "NaiveDateTime", "self", "v1", "checked_add_offset(", "self", "v2", "fix(", "expect(", "\"…\""] := by decide +kernel
 
+/-- src/datetime/mod.rs:fn naive_utc -/
+theorem src_datetime_mod_rs_fn_naive_utc : C04_src_datetime_mod_rs_fn_naive_utc =
+    ["&", "self", "->", "NaiveDateTime", "self", "v1"] := by decide +kernel
+
 /-- src/datetime/mod.rs:fn overflowing_naive_local -/
 theorem src_datetime_mod_rs_fn_overflowing_naive_local : C04_src_datetime_mod_rs_fn_overflowing_naive_local =
     ["&", "self", "->", "NaiveDateTime", "self", "v1", "overflowing_add_offset(", "self", "v2", "fix("] := by decide +kernel
+
+/-- src/datetime/mod.rs:fn to_rfc2822 -/
+theorem src_datetime_mod_rs_fn_to_rfc2822 : C04_src_datetime_mod_rs_fn_to_rfc2822 =
+    ["&", "self", "->", "String", "v1", "String", "with_capacity(", "32", "write_rfc2822(", "&", "v1", "self", "overflowing_naive_local(", "self", "v2", "fix(", "expect(", "\"…\"", "v1"] := by decide +kernel
+
+/-- src/datetime/mod.rs:fn to_rfc3339 -/
+theorem src_datetime_mod_rs_fn_to_rfc3339 : C04_src_datetime_mod_rs_fn_to_rfc3339 =
+    ["&", "self", "->", "String", "v1", "String", "with_capacity(", "32", "v2", "self", "overflowing_naive_local(", "v3", "self", "v3", "fix(", "write_rfc3339(", "&", "v1", "v2", "v3", "SecondsFormat", "AutoSi", "false", "expect(", "\"…\"", "v1"] := by decide +kernel
+
+/-- src/datetime/mod.rs:fn to_rfc3339_opts -/
+theorem src_datetime_mod_rs_fn_to_rfc3339_opts : C04_src_datetime_mod_rs_fn_to_rfc3339_opts =
+    ["&", "self", "v1", "SecondsFormat", "v2", "bool", "->", "String", "v3", "String", "with_capacity(", "38", "v4", "self", "overflowing_naive_local(", "write_rfc3339(", "&", "v3", "v4", "self", "v5", "fix(", "v1", "v2", "expect(", "\"…\"", "v3"] := by decide +kernel
+
+/-- src/datetime/mod.rs:fn to_utc -/
+theorem src_datetime_mod_rs_fn_to_utc : C04_src_datetime_mod_rs_fn_to_utc =
+    ["&", "self", "->", "DateTime", "<", "Utc", ">", "DateTime", "v1", "self", "v1", "v2", "Utc"] := by decide +kernel
 
 /-- src/datetime/mod.rs:fn with_time -/
 theorem src_datetime_mod_rs_fn_with_time : C04_src_datetime_mod_rs_fn_with_time =
     ["&", "self", "v1", "NaiveTime", "->", "LocalResult", "<", "Self", ">", "self", "timezone(", "from_local_datetime(", "&", "self", "overflowing_naive_local(", "date(", "and_time(", "v1", "and_then(", "|", "v2", "|", "if", "v2", ">=", "DateTime", "<", "Utc", ">", "MIN_UTC", "&&", "v2", "<=", "DateTime", "<", "Utc", ">", "MAX_UTC", "Some(", "v2", "else", "None"] := by decide +kernel
 
+/-- src/datetime/mod.rs:fn with_timezone -/
+theorem src_datetime_mod_rs_fn_with_timezone : C04_src_datetime_mod_rs_fn_with_timezone =
+    ["<", "Tz2", "TimeZone", ">", "&", "self", "v1", "&", "Tz2", "->", "DateTime", "<", "Tz2", ">", "v1", "from_utc_datetime(", "&", "self", "v2"] := by decide +kernel
+
 /-- src/datetime/mod.rs:impl Datelike -/
 theorem src_datetime_mod_rs_impl_Datelike : C04_src_datetime_mod_rs_impl_Datelike =
     ["<", "Tz", "TimeZone", ">", "Datelike", "for", "DateTime", "<", "Tz", ">", "year(", "&", "self", "->", "i32", "self", "overflowing_naive_local(", "year(", "month(", "&", "self", "->", "u32", "self", "overflowing_naive_local(", "month(", "month0(", "&", "self", "->", "u32", "self", "overflowing_naive_local(", "month0(", "day(", "&", "self", "->", "u32", "self", "overflowing_naive_local(", "day(", "day0(", "&", "self", "->", "u32", "self", "overflowing_naive_local(", "day0(", "ordinal(", "&", "self", "->", "u32", "self", "overflowing_naive_local(", "ordinal(", "ordinal0(", "&", "self", "->", "u32", "self", "overflowing_naive_local(", "ordinal0(", "weekday(", "&", "self", "->", "Weekday", "self", "overflowing_naive_local(", "weekday(", "iso_week(", "&", "self", "->", "IsoWeek", "self", "overflowing_naive_local(", "iso_week(", "with_year(", "&", "self", "v1", "i32", "->", "Option", "<", "DateTime", "<", "Tz", ">>", "map_local(", "self", "|", "v2", "|", "match", "v2", "year(", "==", "v1", "true", "=>", "Some(", "v2", "false", "=>", "v2", "with_year(", "v1", "with_month(", "&", "self", "v3", "u32", "->", "Option", "<", "DateTime", "<", "Tz", ">>", "map_local(", "self", "|", "v4", "|", "v4", "with_month(", "v3", "with_month0(", "&", "self", "v5", "u32", "->", "Option", "<", "DateTime", "<", "Tz", ">>", "map_local(", "self", "|", "v4", "|", "v4", "with_month0(", "v5", "with_day(", "&", "self", "v6", "u32", "->", "Option", "<", "DateTime", "<", "Tz", ">>", "map_local(", "self", "|", "v4", "|", "v4", "with_day(", "v6", "with_day0(", "&", "self", "v7", "u32", "->", "Option", "<", "DateTime", "<", "Tz", ">>", "map_local(", "self", "|", "v4", "|", "v4", "with_day0(", "v7", "with_ordinal(", "&", "self", "v8", "u32", "->", "Option", "<", "DateTime", "<", "Tz", ">>", "map_local(", "self", "|", "v4", "|", "v4", "with_ordinal(", "v8", "with_ordinal0(", "&", "self", "v9", "u32", "->", "Option", "<", "DateTime", "<", "Tz", ">>", "map_local(", "self", "|", "v4", "|", "v4", "with_ordinal0(", "v9"] := by decide +kernel
+
+/-- src/datetime/mod.rs:impl Debug for DateTime -/
+theorem src_datetime_mod_rs_impl_Debug_for_DateTime : C04_src_datetime_mod_rs_impl_Debug_for_DateTime =
+    ["<", "Tz", "TimeZone", ">", "v1", "Debug", "for", "DateTime", "<", "Tz", ">", "fmt(", "&", "self", "v2", "&", "v1", "Formatter", "->", "v1", "Result", "self", "overflowing_naive_local(", "fmt(", "v2", "?", "self", "v3", "fmt(", "v2"] := by decide +kernel
+
+/-- src/datetime/mod.rs:impl Display for DateTime -/
+theorem src_datetime_mod_rs_impl_Display_for_DateTime : C04_src_datetime_mod_rs_impl_Display_for_DateTime =
+    ["<", "Tz", "TimeZone", ">", "DateTime", "<", "Tz", ">", "Tz", "Offset", "v1", "Display", "v2", "<", "I", "B", ">", "&", "self", "v3", "I", "->", "DelayedFormat", "<", "I", ">", "I", "Iterator", "<", "Item", "B", ">", "+", "Clone", "B", "Borrow", "<", "Item", "<", ">>", "v4", "self", "overflowing_naive_local(", "DelayedFormat", "new_with_offset(", "Some(", "v4", "date(", "Some(", "v4", "time(", "&", "self", "v5", "v3", "v6", "<", ">", "&", "self", "v1", "&", "str", "->", "DelayedFormat", "<", "StrftimeItems", "<", ">>", "self", "format_with_items(", "StrftimeItems", "new(", "v1", "v7", "<", "I", "B", ">", "&", "self", "v3", "I", "v8", "Locale", "->", "DelayedFormat", "<", "I", ">", "I", "Iterator", "<", "Item", "B", ">", "+", "Clone", "B", "Borrow", "<", "Item", "<", ">>", "v4", "self", "overflowing_naive_local(", "DelayedFormat", "new_with_offset_and_locale(", "Some(", "v4", "date(", "Some(", "v4", "time(", "&", "self", "v5", "v3", "v8", "v9", "<", ">", "&", "self", "v1", "&", "str", "v8", "Locale", "->", "DelayedFormat", "<", "StrftimeItems", "<", ">>", "self", "format_localized_with_items(", "StrftimeItems", "new_with_locale(", "v1", "v8", "v8", "§", "<", "Tz", "TimeZone", ">", "v1", "Display", "for", "DateTime", "<", "Tz", ">", "Tz", "Offset", "v1", "Display", "fmt(", "&", "self", "v2", "&", "v1", "Formatter", "->", "v1", "Result", "self", "overflowing_naive_local(", "fmt(", "v2", "?", "v2", "write_char(", "' '", "?", "self", "v3", "fmt(", "v2"] := by decide +kernel
 
 /-- src/datetime/mod.rs:impl Hash for DateTime -/
 theorem src_datetime_mod_rs_impl_Hash_for_DateTime : C04_src_datetime_mod_rs_impl_Hash_for_DateTime =
@@ -73,6 +117,18 @@ theorem src_naive_date_mod_rs_const_AFTER_MAX : C04_src_naive_date_mod_rs_const_
 /-- src/naive/date/mod.rs:const BEFORE_MIN -/
 theorem src_naive_date_mod_rs_const_BEFORE_MIN : C04_src_naive_date_mod_rs_const_BEFORE_MIN =
     ["NaiveDate", "NaiveDate", "from_yof(", "MIN_YEAR", "-", "1", "<<", "13", "|", "366", "<<", "4", "|", "7", "/", "*", "FE", "*", "/"] := by decide +kernel
+
+/-- src/naive/date/mod.rs:fn day0 -/
+theorem src_naive_date_mod_rs_fn_day0 : C04_src_naive_date_mod_rs_fn_day0 =
+    ["&", "self", "->", "u32", "self", "mdf(", "day(", "-", "1"] := by decide +kernel
+
+/-- src/naive/date/mod.rs:fn month0 -/
+theorem src_naive_date_mod_rs_fn_month0 : C04_src_naive_date_mod_rs_fn_month0 =
+    ["&", "self", "->", "u32", "self", "month(", "-", "1"] := by decide +kernel
+
+/-- src/naive/date/mod.rs:fn ordinal0 -/
+theorem src_naive_date_mod_rs_fn_ordinal0 : C04_src_naive_date_mod_rs_fn_ordinal0 =
+    ["&", "self", "->", "u32", "self", "ordinal(", "-", "1"] := by decide +kernel
 
 /-- src/naive/datetime/mod.rs:fn checked_add_offset -/
 theorem src_naive_datetime_mod_rs_fn_checked_add_offset : C04_src_naive_datetime_mod_rs_fn_checked_add_offset =
@@ -106,9 +162,45 @@ theorem src_offset_mod_rs_fn_from_utc_datetime : C04_src_offset_mod_rs_fn_from_u
 theorem src_offset_mod_rs_fn_with_ymd_and_hms : C04_src_offset_mod_rs_fn_with_ymd_and_hms =
     ["&", "self", "v1", "i32", "v2", "u32", "v3", "u32", "v4", "u32", "v5", "u32", "v6", "u32", "->", "MappedLocalTime", "<", "DateTime", "<", "Self", ">>", "match", "NaiveDate", "from_ymd_opt(", "v1", "v2", "v3", "and_then(", "|", "v7", "|", "v7", "and_hms_opt(", "v4", "v5", "v6", "Some(", "v8", "=>", "self", "from_local_datetime(", "&", "v8", "None", "=>", "MappedLocalTime", "None"] := by decide +kernel
 
+/-- src/traits.rs:fn hour12 -/
+theorem src_traits_rs_fn_hour12 : C04_src_traits_rs_fn_hour12 =
+    ["&", "self", "->", "bool", "u32", "v1", "self", "hour(", "v2", "v1", "%", "12", "if", "v2", "==", "0", "v2", "12", "v1", ">=", "12", "v2"] := by decide +kernel
+
+/-- src/traits.rs:fn num_seconds_from_midnight -/
+theorem src_traits_rs_fn_num_seconds_from_midnight : C04_src_traits_rs_fn_num_seconds_from_midnight =
+    ["&", "self", "->", "u32", "self", "hour(", "*", "3600", "+", "self", "minute(", "*", "60", "+", "self", "second("] := by decide +kernel
+
+/-- src/traits.rs:fn quarter -/
+theorem src_traits_rs_fn_quarter : C04_src_traits_rs_fn_quarter =
+    ["&", "self", "->", "u32", "self", "month(", "-", "1", "div_euclid(", "3", "+", "1"] := by decide +kernel
+
+/-- src/traits.rs:fn year_ce -/
+theorem src_traits_rs_fn_year_ce : C04_src_traits_rs_fn_year_ce =
+    ["&", "self", "->", "bool", "u32", "v1", "self", "year(", "if", "v1", "<", "1", "false", "1", "-", "v1", "as", "u32", "else", "true", "v1", "as", "u32"] := by decide +kernel
+
 /-- callee src/datetime/mod.rs:fn from_naive_utc_and_offset -/
 theorem callee_src_datetime_mod_rs_fn_from_naive_utc_and_offset : C04_callee_src_datetime_mod_rs_fn_from_naive_utc_and_offset =
     ["v1", "NaiveDateTime", "v2", "Tz", "Offset", "->", "DateTime", "<", "Tz", ">", "DateTime", "v1", "v2"] := by decide +kernel
+
+/-- callee src/format/formatting.rs:fn new_with_offset -/
+theorem callee_src_format_formatting_rs_fn_new_with_offset : C04_callee_src_format_formatting_rs_fn_new_with_offset =
+    ["<", "Off", ">", "v1", "Option", "<", "NaiveDate", ">", "v2", "Option", "<", "NaiveTime", ">", "v3", "&", "Off", "v4", "I", "->", "DelayedFormat", "<", "I", ">", "Off", "Offset", "+", "Display", "v5", "v3", "to_string(", "v3", "fix(", "DelayedFormat", "v1", "v2", "v6", "Some(", "v5", "v4", "v7", "default_locale("] := by decide +kernel
+
+/-- callee src/format/formatting.rs:fn new_with_offset_and_locale -/
+theorem callee_src_format_formatting_rs_fn_new_with_offset_and_locale : C04_callee_src_format_formatting_rs_fn_new_with_offset_and_locale =
+    ["<", "Off", ">", "v1", "Option", "<", "NaiveDate", ">", "v2", "Option", "<", "NaiveTime", ">", "v3", "&", "Off", "v4", "I", "v5", "Locale", "->", "DelayedFormat", "<", "I", ">", "Off", "Offset", "+", "Display", "v6", "v3", "to_string(", "v3", "fix(", "DelayedFormat", "v1", "v2", "v7", "Some(", "v6", "v4", "v5"] := by decide +kernel
+
+/-- callee src/format/formatting.rs:fn write_hundreds -/
+theorem callee_src_format_formatting_rs_fn_write_hundreds : C04_callee_src_format_formatting_rs_fn_write_hundreds =
+    ["v1", "&", "Write", "v2", "u8", "->", "v3", "Result", "if", "v2", ">=", "100", "return", "Err(", "v3", "Error", "v4", "b'0'", "+", "v2", "/", "10", "v5", "b'0'", "+", "v2", "%", "10", "v1", "write_char(", "v4", "as", "char", "?", "v1", "write_char(", "v5", "as", "char"] := by decide +kernel
+
+/-- callee src/format/formatting.rs:fn write_rfc2822 -/
+theorem callee_src_format_formatting_rs_fn_write_rfc2822 : C04_callee_src_format_formatting_rs_fn_write_rfc2822 =
+    ["v1", "&", "Write", "v2", "NaiveDateTime", "v3", "FixedOffset", "->", "v4", "Result", "v5", "v2", "year(", "if!(", "0", "..=", "9999", "contains(", "&", "v5", "return", "Err(", "v4", "Error", "v6", "default_locale(", "v1", "write_str(", "short_weekdays(", "v6", "v2", "weekday(", "num_days_from_sunday(", "as", "usize", "?", "v1", "write_str(", "\", \"", "?", "v7", "v2", "day(", "if", "v7", "<", "10", "v1", "write_char(", "b'0'", "+", "v7", "as", "u8", "as", "char", "?", "else", "write_hundreds(", "v1", "v7", "as", "u8", "?", "v1", "write_char(", "' '", "?", "v1", "write_str(", "short_months(", "v6", "v2", "month0(", "as", "usize", "?", "v1", "write_char(", "' '", "?", "write_hundreds(", "v1", "v5", "/", "100", "as", "u8", "?", "write_hundreds(", "v1", "v5", "%", "100", "as", "u8", "?", "v1", "write_char(", "' '", "?", "let(", "v8", "v9", "v10", "v2", "time(", "hms(", "write_hundreds(", "v1", "v8", "as", "u8", "?", "v1", "write_char(", "':'", "?", "write_hundreds(", "v1", "v9", "as", "u8", "?", "v1", "write_char(", "':'", "?", "v10", "v10", "+", "v2", "nanosecond(", "/", "1000000000", "write_hundreds(", "v1", "v10", "as", "u8", "?", "v1", "write_char(", "' '", "?", "OffsetFormat", "v11", "OffsetPrecision", "Minutes", "v12", "Colons", "None", "v13", "false", "v14", "Pad", "Zero", "format(", "v1", "v3"] := by decide +kernel
+
+/-- callee src/format/formatting.rs:fn write_rfc3339 -/
+theorem callee_src_format_formatting_rs_fn_write_rfc3339 : C04_callee_src_format_formatting_rs_fn_write_rfc3339 =
+    ["v1", "&", "Write", "v2", "NaiveDateTime", "v3", "FixedOffset", "v4", "SecondsFormat", "v5", "bool", "->", "v6", "Result", "v7", "v2", "date(", "year(", "if(", "0", "..=", "9999", "contains(", "&", "v7", "write_hundreds(", "v1", "v7", "/", "100", "as", "u8", "?", "write_hundreds(", "v1", "v7", "%", "100", "as", "u8", "?", "else", "write!(", "v1", "\"{:+05}\"", "v7", "?", "v1", "write_char(", "'-'", "?", "write_hundreds(", "v1", "v2", "date(", "month(", "as", "u8", "?", "v1", "write_char(", "'-'", "?", "write_hundreds(", "v1", "v2", "date(", "day(", "as", "u8", "?", "v1", "write_char(", "'T'", "?", "let(", "v8", "v9", "v10", "v2", "time(", "hms(", "v11", "v2", "nanosecond(", "if", "v11", ">=", "1000000000", "v10", "+=", "1", "v11", "-=", "1000000000", "write_hundreds(", "v1", "v8", "as", "u8", "?", "v1", "write_char(", "':'", "?", "write_hundreds(", "v1", "v9", "as", "u8", "?", "v1", "write_char(", "':'", "?", "v10", "v10", "write_hundreds(", "v1", "v10", "as", "u8", "?", "match", "v4", "SecondsFormat", "Secs", "=>", "SecondsFormat", "Millis", "=>", "write!(", "v1", "\".{:03}\"", "v11", "/", "1000000", "?", "SecondsFormat", "Micros", "=>", "write!(", "v1", "\".{:06}\"", "v11", "/", "1000", "?", "SecondsFormat", "Nanos", "=>", "write!(", "v1", "\".{:09}\"", "v11", "?", "SecondsFormat", "AutoSi", "=>", "if", "v11", "==", "0", "else", "if", "v11", "%", "1000000", "==", "0", "write!(", "v1", "\".{:03}\"", "v11", "/", "1000000", "?", "else", "if", "v11", "%", "1000", "==", "0", "write!(", "v1", "\".{:06}\"", "v11", "/", "1000", "?", "else", "write!(", "v1", "\".{:09}\"", "v11", "?", "SecondsFormat", "__NonExhaustive", "=>", "unreachable!(", "OffsetFormat", "v12", "OffsetPrecision", "Minutes", "v13", "Colons", "Colon", "v14", "v5", "v15", "Pad", "Zero", "format(", "v1", "v3"] := by decide +kernel
 
 /-- callee src/naive/date/mod.rs:fn from_mdf -/
 theorem callee_src_naive_date_mod_rs_fn_from_mdf : C04_callee_src_naive_date_mod_rs_fn_from_mdf =
@@ -118,9 +210,21 @@ theorem callee_src_naive_date_mod_rs_fn_from_mdf : C04_callee_src_naive_date_mod
 theorem callee_src_naive_date_mod_rs_fn_from_ymd_opt : C04_callee_src_naive_date_mod_rs_fn_from_ymd_opt =
     ["v1", "i32", "v2", "u32", "v3", "u32", "->", "Option", "<", "NaiveDate", ">", "v4", "YearFlags", "from_year(", "v1", "if", "Some(", "v5", "Mdf", "new(", "v2", "v3", "v4", "NaiveDate", "from_mdf(", "v1", "v5", "else", "None"] := by decide +kernel
 
+/-- callee src/naive/date/mod.rs:fn mdf -/
+theorem callee_src_naive_date_mod_rs_fn_mdf : C04_callee_src_naive_date_mod_rs_fn_mdf =
+    ["&", "self", "->", "Mdf", "Mdf", "from_ol(", "self", "yof(", "&", "OL_MASK", ">>", "3", "self", "year_flags("] := by decide +kernel
+
+/-- callee src/naive/date/mod.rs:fn yof -/
+theorem callee_src_naive_date_mod_rs_fn_yof : C04_callee_src_naive_date_mod_rs_fn_yof =
+    ["&", "self", "->", "i32", "self", "v1", "get("] := by decide +kernel
+
 /-- callee src/naive/datetime/mod.rs:fn and_local_timezone -/
 theorem callee_src_naive_datetime_mod_rs_fn_and_local_timezone : C04_callee_src_naive_datetime_mod_rs_fn_and_local_timezone =
     ["<", "Tz", "TimeZone", ">", "&", "self", "v1", "Tz", "->", "MappedLocalTime", "<", "DateTime", "<", "Tz", ">>", "v1", "from_local_datetime(", "self"] := by decide +kernel
+
+/-- callee src/naive/internals.rs:fn from_ol -/
+theorem callee_src_naive_internals_rs_fn_from_ol : C04_callee_src_naive_internals_rs_fn_from_ol =
+    ["v1", "i32", "YearFlags(", "v2", "YearFlags", "->", "Mdf", "debug_assert!(", "v1", ">", "1", "&&", "v1", "<=", "MAX_OL", "as", "i32", "Mdf(", "v1", "as", "u32", "+", "OL_TO_MDL", "v1", "as", "usize", "as", "u32", "<<", "3", "|", "v2", "as", "u32"] := by decide +kernel
 
 /-- callee src/naive/internals.rs:fn from_year -/
 theorem callee_src_naive_internals_rs_fn_from_year : C04_callee_src_naive_internals_rs_fn_from_year =
@@ -133,5 +237,17 @@ theorem callee_src_naive_internals_rs_fn_from_year_mod_400 : C04_callee_src_naiv
 /-- callee src/naive/internals.rs:fn ordinal_and_flags -/
 theorem callee_src_naive_internals_rs_fn_ordinal_and_flags : C04_callee_src_naive_internals_rs_fn_ordinal_and_flags =
     ["&", "self", "->", "Option", "<", "i32", ">", "v1", "self", ">>", "3", "match", "MDL_TO_OL", "v1", "as", "usize", "XX", "=>", "None", "v2", "=>", "Some(", "self", "as", "i32", "-", "v2", "as", "i32", "<<", "3"] := by decide +kernel
+
+/-- callee src/naive/time/mod.rs:fn hms -/
+theorem callee_src_naive_time_mod_rs_fn_hms : C04_callee_src_naive_time_mod_rs_fn_hms =
+    ["&", "self", "->", "u32", "u32", "u32", "v1", "self", "v2", "%", "60", "v3", "self", "v2", "/", "60", "v4", "v3", "%", "60", "v5", "v3", "/", "60", "v5", "v4", "v1"] := by decide +kernel
+
+/-- callee src/weekday.rs:fn days_since -/
+theorem callee_src_weekday_rs_fn_days_since : C04_callee_src_weekday_rs_fn_days_since =
+    ["&", "self", "v1", "Weekday", "->", "u32", "v2", "*", "self", "as", "u32", "v3", "v1", "as", "u32", "if", "v2", "<", "v3", "7", "+", "v2", "-", "v3", "else", "v2", "-", "v3"] := by decide +kernel
+
+/-- callee src/weekday.rs:fn num_days_from_sunday -/
+theorem callee_src_weekday_rs_fn_num_days_from_sunday : C04_callee_src_weekday_rs_fn_num_days_from_sunday =
+    ["&", "self", "->", "u32", "self", "days_since(", "Weekday", "Sun"] := by decide +kernel
 
 end Chrono.Pins.C04
